@@ -513,7 +513,7 @@ fn pay_challenge(m: &'static Merchant, amt: i64, nonce: &[u8], proof: &[u8], ctx
 
 /// merchant configuration equal to `m` except for one atom of the signing key pair's public half
 /// or of the range parameters (the secret half is untouched; decoding does not cross-check them)
-fn config_with_atom(m: &Merchant, which: &str, fpath: &str, new: &[u8]) -> Result<&'static Merchant, String> {
+pub fn config_with_atom(m: &Merchant, which: &str, fpath: &str, new: &[u8]) -> Result<&'static Merchant, String> {
     let kp_bytes = {
         let mut t = trace(m.cfg.signing_keypair())?;
         if which == "key" {
@@ -534,7 +534,7 @@ fn config_with_atom(m: &Merchant, which: &str, fpath: &str, new: &[u8]) -> Resul
 }
 
 /// (which, field path, kind, original bytes) of the parameter atoms the merchant feeds to its challenges
-fn parameter_atoms(m: &Merchant, range_stride: usize) -> Result<Vec<(String, String, Kind, Vec<u8>)>, String> {
+pub fn parameter_atoms(m: &Merchant, range_stride: usize) -> Result<Vec<(String, String, Kind, Vec<u8>)>, String> {
     let mut v = vec![];
     let t = trace(m.cfg.signing_keypair())?;
     for a in t.atoms.iter().filter(|a| a.fpath.starts_with("pk/") && matches!(a.kind, Kind::G1 | Kind::G2)) {
